@@ -405,67 +405,6 @@ Proof.
   - rewrite !fset_other by exact Hb. apply Ha.
 Qed.
 
-Lemma info_change_sim racc f :
-  let '(pacc', t) := p_info_change (ra_info racc, snd racc) f in
-  let '(racc', t') := r_info_change racc f in
-  t = t' /\ pacc' = (ra_info racc', snd racc') /\ fst racc' <> None /\
-  (forall k, rslot racc' k = rslot racc k) /\
-  (is_storage_known (snd racc) = true -> is_storage_known (snd racc') = true).
-Proof.
-  destruct racc as [[[i m]|] st]; unfold p_info_change, r_info_change, ra_info, rslot; simpl;
-    (repeat split; [discriminate|apply known_on_changed]).
-Qed.
-
-Lemma increments_R d bs : forall p r p' ts,
-  R d p r -> p_increments d p bs = (p', ts) ->
-  exists r', r_increments d r bs = (r', ts) /\ R d p' r'.
-Proof.
-  induction bs as [|[a inc] bs IH]; intros p r p' ts HR Hp; cbn [p_increments] in Hp; cbn [r_increments].
-  - inversion Hp; subst. eauto.
-  - destruct (inc =? 0); [eauto|].
-    destruct (r_load d r a) as [r1 racc] eqn:Erl.
-    destruct (R_rload d p r a r1 racc HR Erl) as (HR1 & Er1).
-    destruct (p_load d p a) as [p1 pacc] eqn:Epl.
-    destruct (R_pload d p r1 a p1 pacc racc HR1 Er1 Epl) as (HR2 & Ep1 & Epacc). subst pacc.
-    unfold p_increment in Hp. unfold r_increment.
-    pose proof (info_change_sim racc (fun i => set_balance i (sat_add (balance i) inc))) as Hic.
-    destruct (p_info_change (ra_info racc, snd racc) _) as [pacc' t] eqn:E1.
-    destruct (r_info_change racc _) as [racc' t'] eqn:E2.
-    destruct Hic as (Et & Epa & Hnn & Hsl & Hk). subst t' pacc'.
-    destruct (p_increments d (p_put p1 a (ra_info racc', snd racc')) bs) as [p2 ts2] eqn:E3.
-    inversion Hp; subst; clear Hp.
-    assert (HR3 : R d (p_put p1 a (ra_info racc', snd racc')) (r_put r1 a racc')).
-    { eapply R_put; eauto; intros Hx; contradiction. }
-    destruct (IH _ _ _ _ HR3 E3) as (r2 & Hr2 & HR4). exists r2. rewrite Hr2. auto.
-Qed.
-
-Lemma drains_R d ads : forall p r p' bals ts,
-  R d p r -> p_drains d p ads = Some (p', bals, ts) ->
-  exists r', r_drains d r ads = Some (r', bals, ts) /\ R d p' r'.
-Proof.
-  induction ads as [|a ads IH]; intros p r p' bals ts HR Hp; cbn [p_drains] in Hp; cbn [r_drains].
-  - inversion Hp; subst. eauto.
-  - destruct (r_load d r a) as [r1 racc] eqn:Erl.
-    destruct (R_rload d p r a r1 racc HR Erl) as (HR1 & Er1).
-    destruct (p_load d p a) as [p1 pacc] eqn:Epl.
-    destruct (R_pload d p r1 a p1 pacc racc HR1 Er1 Epl) as (HR2 & Ep1 & Epacc). subst pacc.
-    unfold p_drain in Hp. unfold r_drain. cbn [fst snd] in Hp.
-    assert (Hb : match ra_info racc with Some i => balance i | None => balance default_info end =
-                 match fst racc with Some (i, _) => balance i | None => balance default_info end).
-    { unfold ra_info. destruct (fst racc) as [[i m]|]; reflexivity. }
-    rewrite Hb in Hp.
-    destruct (_ <=? U128_MAX); [|discriminate].
-    pose proof (info_change_sim racc (fun i => set_balance i 0)) as Hic.
-    destruct (p_info_change (ra_info racc, snd racc) _) as [pacc' t] eqn:E1.
-    destruct (r_info_change racc _) as [racc' t'] eqn:E2.
-    destruct Hic as (Et & Epa & Hnn & Hsl & Hk). subst t' pacc'.
-    destruct (p_drains d (p_put p1 a (ra_info racc', snd racc')) ads) as [[[p2 bals2] ts2]|] eqn:E3; [|discriminate].
-    inversion Hp; subst; clear Hp.
-    assert (HR3 : R d (p_put p1 a (ra_info racc', snd racc')) (r_put r1 a racc')).
-    { eapply R_put; eauto; intros Hx; contradiction. }
-    destruct (IH _ _ _ _ _ HR3 E3) as (r2 & Hr2 & HR4). exists r2. rewrite Hr2. auto.
-Qed.
-
 (* ---------------------------------------------------------------- reads *)
 Lemma basic_R d p r a p' i :
   R d p r -> p_basic d p a = (p', i) -> exists r', r_basic d r a = (r', i) /\ R d p' r'.
@@ -476,6 +415,60 @@ Proof.
   destruct (p_load d p a) as [p1 pacc] eqn:Epl.
   destruct (R_pload d p r1 a p1 pacc racc HR1 Er1 Epl) as (HR2 & Ep1 & Epacc). subst pacc.
   inversion Hp; subst. exists r1. auto.
+Qed.
+
+(* ---------------------------------------------------------------- increments and drains *)
+Lemma touched_code_ok d oi f : code_ok_e d (touched_account oi f).
+Proof. unfold code_ok_e, touched_account. simpl. intros _ _ H. discriminate. Qed.
+
+Lemma touch_all_R d bs : forall p r p' es,
+  R d p r -> p_touch_all d p bs = (p', es) ->
+  exists r', r_touch_all d r bs = (r', es) /\ R d p' r' /\ Forall (fun ae => code_ok_e d (snd ae)) es.
+Proof.
+  induction bs as [|[a f] bs IH]; intros p r p' es HR Hp; cbn [p_touch_all r_touch_all] in *.
+  - inversion Hp; subst. eauto.
+  - destruct (p_basic d p a) as [p1 oi] eqn:Eb.
+    destruct (basic_R d p r a p1 oi HR Eb) as (r1 & Hr1 & HR1). rewrite Hr1.
+    destruct (p_touch_all d p1 bs) as [p2 es2] eqn:Et. inversion Hp; subst p' es; clear Hp.
+    destruct (IH p1 r1 p2 es2 HR1 Et) as (r2 & Hr2 & HR2 & Hc). rewrite Hr2.
+    exists r2. split; [reflexivity|]. split; [exact HR2|]. constructor; [apply touched_code_ok|exact Hc].
+Qed.
+
+Lemma increments_R d bs p r p' ts :
+  R d p r -> p_increments d p bs = Some (p', ts) ->
+  exists r', r_increments d r bs = (r', ts) /\ R d p' r'.
+Proof.
+  intros HR Hp. unfold p_increments in Hp. unfold r_increments.
+  destruct (p_touch_all d p _) as [p1 es] eqn:Et.
+  destruct (touch_all_R d _ p r p1 es HR Et) as (r1 & Hr1 & HR1 & Hc). rewrite Hr1.
+  exact (apply_evm_state_R d es p1 r1 p' ts HR1 Hc Hp).
+Qed.
+
+Lemma drain_all_R d ads : forall p r p' bals es,
+  R d p r -> p_drain_all d p ads = Some (p', bals, es) ->
+  exists r', r_drain_all d r ads = Some (r', bals, es) /\ R d p' r' /\ Forall (fun ae => code_ok_e d (snd ae)) es.
+Proof.
+  induction ads as [|a ads IH]; intros p r p' bals es HR Hp; cbn [p_drain_all r_drain_all] in *.
+  - inversion Hp; subst. eauto.
+  - destruct (p_basic d p a) as [p1 oi] eqn:Eb.
+    destruct (basic_R d p r a p1 oi HR Eb) as (r1 & Hr1 & HR1). rewrite Hr1.
+    destruct (_ <=? U128_MAX); [|discriminate].
+    destruct (p_drain_all d p1 ads) as [[[p2 bals2] es2]|] eqn:Et; [|discriminate].
+    inversion Hp; subst p' bals es; clear Hp.
+    destruct (IH p1 r1 p2 bals2 es2 HR1 Et) as (r2 & Hr2 & HR2 & Hc). rewrite Hr2.
+    exists r2. split; [reflexivity|]. split; [exact HR2|]. constructor; [apply touched_code_ok|exact Hc].
+Qed.
+
+Lemma drains_R d ads p r p' bals ts :
+  R d p r -> p_drains d p ads = Some (p', bals, ts) ->
+  exists r', r_drains d r ads = Some (r', bals, ts) /\ R d p' r'.
+Proof.
+  intros HR Hp. unfold p_drains in Hp. unfold r_drains.
+  destruct (p_drain_all d p ads) as [[[p1 bals1] es]|] eqn:Et; [|discriminate].
+  destruct (drain_all_R d ads p r p1 bals1 es HR Et) as (r1 & Hr1 & HR1 & Hc). rewrite Hr1.
+  destruct (p_apply_evm_state p1 es) as [[p2 ts2]|] eqn:Ea; [|discriminate].
+  inversion Hp; subst p' bals ts; clear Hp.
+  destruct (apply_evm_state_R d es p1 r1 p2 ts2 HR1 Hc Ea) as (r2 & Hr2 & HR2). rewrite Hr2. eauto.
 Qed.
 
 Lemma code_R d p r h p' c :
@@ -572,7 +565,8 @@ Proof.
     inversion Hp; subst; clear Hp.
     destruct (apply_evm_state_R d es p r p1 ts HR Hcode E) as (r1 & Hr1 & HR1).
     rewrite Hr1. eexists. split; [reflexivity|]. rewrite (R_ts _ _ _ HR1). now apply R_with_ts.
-  - destruct (p_increments d p bs) as [p1 ts] eqn:E. inversion Hp; subst; clear Hp.
+  - destruct (p_increments d p bs) as [[p1 ts]|] eqn:E; [|inversion Hp; subst; contradiction].
+    inversion Hp; subst; clear Hp.
     destruct (increments_R d bs p r p1 ts HR E) as (r1 & Hr1 & HR1).
     rewrite Hr1. eexists. split; [reflexivity|]. rewrite (R_ts _ _ _ HR1). now apply R_with_ts.
   - destruct (p_drains d p ads) as [[[p1 bals] ts]|] eqn:E; [|inversion Hp; subst; contradiction].
